@@ -17,6 +17,7 @@ mod c14;
 mod c16;
 mod c17;
 mod keys;
+mod seeds;
 mod sign;
 mod c01;
 mod codecref;
@@ -233,6 +234,10 @@ fn main() {
             let lines: Vec<String> = cases.iter().map(|c| c.op.clone()).collect();
             let fixed: Vec<Option<String>> = cases.iter().map(|c| c.fixed_out.clone()).collect();
             run_and_judge(prop, tier, seed, &lines, &fixed, ncorpus, outdir);
+        }
+        "seedsearch" => {
+            // vh seedsearch <N> <start> <count> <outfile>
+            seeds::search(args[2].parse().unwrap(), args[3].parse().unwrap(), args[4].parse().unwrap(), &args[5]);
         }
         "judge" => {
             // vh judge <PROP> <ops.txt> <outdir>: execute given ops and evaluate the property's predicate (replays)
